@@ -3,12 +3,13 @@
 import json, os, sys
 sys.path.insert(0, os.path.dirname(os.path.abspath(__file__)))
 from propdefs import PROPS, MANIFEST_TEXT
+READY = [l.strip() for l in open(os.path.join(os.path.dirname(os.path.abspath(__file__)), 'ready.txt')) if l.strip() and not l.startswith('#')]
 V = os.path.dirname(os.path.dirname(os.path.abspath(__file__)))
 props = [json.loads(l) for l in open(os.path.join(V, "properties.jsonl"))]
 checks, na = [], []
 for p in props:
     pid = p["id"]
-    if pid in PROPS and pid in MANIFEST_TEXT:
+    if pid in PROPS and pid in MANIFEST_TEXT and pid in READY:
         t = MANIFEST_TEXT[pid]
         checks.append({
             "property_id": pid,
